@@ -4,7 +4,8 @@ Line-protocol driver for C09 (affine maps and pull-back warp). One request per l
 import DarsiaModel.Basic
 import DarsiaModel.Affine
 import DarsiaModel.Warp
-open Darsia Darsia.Affine Darsia.Warp
+import DarsiaModel.GenPerspective
+open Darsia Darsia.Affine Darsia.Warp Darsia.GenPerspective
 
 def pV2 : P (V2 Rat) := do let x ← P.rat; let y ← P.rat; pure ⟨x, y⟩
 def pV3 : P (V3 Rat) := do let x ← P.rat; let y ← P.rat; let z ← P.rat; pure ⟨x, y, z⟩
@@ -89,6 +90,17 @@ def handle : List String → Option String
         if fragile eps (pre3 mode T csS csD rnd v0 v1 v2) then "?"
         else if csS.valid p then toString ((p.1 * csS.n1 + p.2.1) * csS.n2 + p.2.2) else "-1"
       pure (s!"{csD.n0} {csD.n1} {csD.n2} | " ++ " ".intercalate cells)) rest
+  | "gp" :: rest => run (do
+      -- A(4) b c stretch_factor stretch_off bulge_factor bulge_off center max min, then points
+      let a ← P.rep P.rat 4
+      let vs ← P.rep pV2 9
+      let pts ← P.list pV2; P.done
+      match a, vs with
+      | [a11, a12, a21, a22], [b, c, sf, so, bf, bo, ce, mx, mn] =>
+        let p : GP Rat := ⟨⟨a11, a12, a21, a22⟩, b, c, sf, so, bf, bo, ce, mx, mn⟩
+        if pts.any (fun x => p.denom x == 0) then pure "!div0"
+        else pure (showV2s (pts.map p.inverse))
+      | _, _ => failure) rest
   | _ => none
 
 def main : IO Unit := runDriver handle
